@@ -64,7 +64,10 @@ class ProgramSession:
         except Exception as e:
             self.failed = True
             v = as_violation(e, self.trace())
-            if v is None or v is e:
+            if v is None:
+                raise
+            ProgramSession.last_violation = v
+            if v is e:
                 raise
             raise v from None
 
